@@ -2590,3 +2590,17 @@ package sdf
 //@   invariant 0 exists w int :: (i == 0 && d == math.MaxFloat64) || (0 <= w && w < i && d == s.sdf.Evaluate(rupow2(s, w).MulPosition(p)))
 //@   ensures [the-operand-seen-from-the-point-moved-by-one-of-the-first-num-powers-of-the-stored-step-starting-with-none] exists w int :: 0 <= w && w < s.num && r == s.sdf.Evaluate(rupow2(s, w).MulPosition(p))
 //@ end
+
+//@ func RotateUnion3D
+//@   property C01 C02
+//@   id box-of-all-copies
+//@   requires ord3(sdf.BoundingBox())
+//@   prelet v0 = sdf.BoundingBox().Vertices()
+//@   invariant 0 0 <= i && i <= s.num && len(v) == 8 && s.num == num && num >= 1
+//@   invariant 0 forall t int :: 0 <= t && t < 8 ==> v[t] == fpow3(step, i).MulPosition(v0[t])
+//@   invariant 0 forall t int :: 0 <= t && t < 8 ==> bbMin.X <= v0[t].X && bbMin.Y <= v0[t].Y && bbMin.Z <= v0[t].Z && bbMax.X >= v0[t].X && bbMax.Y >= v0[t].Y && bbMax.Z >= v0[t].Z
+//@   invariant 0 forall k int, t int :: 0 <= k && k < i && 0 <= t && t < 8 ==> bbMin.X <= fpow3(step, k).MulPosition(v0[t]).X && bbMin.Y <= fpow3(step, k).MulPosition(v0[t]).Y && bbMin.Z <= fpow3(step, k).MulPosition(v0[t]).Z && bbMax.X >= fpow3(step, k).MulPosition(v0[t]).X && bbMax.Y >= fpow3(step, k).MulPosition(v0[t]).Y && bbMax.Z >= fpow3(step, k).MulPosition(v0[t]).Z
+//@   ensures [no-copies-no-shape] num <= 0 <==> isnil(r)
+//@   ensures [the-union-looks-back-through-the-inverse-step] !isnil(r) ==> r.step == step.Inverse() && r.num == num && r.sdf == sdf
+//@   ensures [the-box-holds-every-corner-of-the-operand-box-under-every-power-of-the-step-up-to-num-minus-one] forall k int, t int :: !isnil(r) && 0 <= k && k < num && 0 <= t && t < 8 ==> r.bb.Contains(fpow3(step, k).MulPosition(v0[t]))
+//@ end
